@@ -40,6 +40,7 @@ def check(c: Check):
     clause_e(c)
     clause_f(c)
     clause_g(c)
+    clause_i(c)
     from .common import check_application_purity
     check_application_purity(c, 'C06-h', ['exactly_lib.type_val_prims.matcher.matcher_base_class:MatcherWTrace', 'exactly_lib.type_val_prims.string_transformer:StringTransformer'], floor=25)
 
@@ -907,3 +908,84 @@ def clause_f(c: Check):
                                                                'expression could be re-read as something else)',
                   '%s:%d' % (m.relpath, node.lineno))
     c.floor('C06-f', 'raise statements in the expression parser', n, 2)
+
+
+# ---------------------------------------------------------------- i
+# components of primitives that are parsed as a *full* expression: each is delimited by the surrounding syntax, so
+# a following infix operator cannot be meant for the enclosing expression (read and confirmed one by one)
+FULL_COMPONENTS = {
+    ('exactly_lib.impls.types.files_condition.parse', 'file_matcher'):
+        'the matcher of a `NAME : FILE-MATCHER` entry of a files-condition: ended by the end of the line / the closing brace',
+    ('exactly_lib.impls.types.files_source.parse', 'files_source'):
+        'the contents of a nested `dir NAME = FILES-SOURCE` inside a file list: delimited by braces',
+    ('exactly_lib.impls.types.files_matcher.parse_files_matcher', 'files_condition'):
+        'the FILES-CONDITION operand of `matches`: the files-condition grammar has no infix operators',
+}
+
+
+def _unreferenced(ix: Index, f: FuncDef, seen: set) -> bool:
+    """a module-level function that is referenced nowhere, or only from module-level functions that are themselves
+    unreferenced (dead code)"""
+    if f in seen:
+        return True
+    seen.add(f)
+    if len(seen) > 8:
+        return False
+    for s in util.references_to(ix, f):
+        g = s.func
+        while g is not None and g.parent is not None:
+            g = g.parent
+        if g is None or g.cls is not None or not _unreferenced(ix, g, seen):
+            return False
+    return True
+
+
+def clause_i(c: Check):
+    """SIB/CFGOBL operand precedence of prefix-like primitives: a primitive that is followed by an expression of a
+    grammar (`-selection FILE-MATCHER FILES-MATCHER`, `-transformed-by TRANSFORMER MATCHER`, `every line : MATCHER`,
+    `contents MATCHER`, `num-lines INTEGER-MATCHER` ...) parses that component as a *simple* expression, so that a
+    following && / || belongs to the enclosing expression as documented (primitives bind tighter than infix
+    operators). Every use of `<grammar module>.parsers(..).full` under `impls.types` must be one of the delimited
+    components listed above; unreferenced functions are not judged."""
+    ix, fo = c.ix, c.fo
+    n_simple, n_full = 0, 0
+    for name in ix.all_module_names():
+        if not name.startswith('exactly_lib.impls.types.'):
+            continue
+        if 'parsers(' not in ix.text(name):
+            continue
+        m = ix.module(name)
+        for node in ast.walk(m.tree):
+            if not (isinstance(node, ast.Attribute) and node.attr in ('simple', 'full')):
+                continue
+            f = m.enclosing_func(node)
+            v = util.resolve_temp(f, node.value) if f is not None else node.value
+            if not isinstance(v, ast.Call):
+                continue
+            d = ix.callee(m, f, v)
+            if not (isinstance(d, FuncDef) and d.name == 'parsers' and d.cls is None):
+                continue
+            if node.attr == 'simple':
+                n_simple += 1
+                continue
+            if f is not None and f.name == 'parsers':
+                continue  # the definition of the pair itself
+            # an unreferenced module-level function is dead code
+            top = f
+            while top is not None and top.parent is not None:
+                top = top.parent
+            if top is not None and top.cls is None and _unreferenced(ix, top, set()):
+                c.note('C06-i: %s uses a full-expression component but is never referenced' % top.key)
+                continue
+            n_full += 1
+            target = d.module.name.split('.')[-2] if d.module.name.endswith('.parse') else d.module.name.split('.')[-1]
+            target = target.replace('parse_', '')
+            target = {'files_condition': 'files_condition', 'parse': target}.get(target, target)
+            key = (name, target)
+            c.expect(key in FULL_COMPONENTS, 'C06-i', 'component-parsed-as-full/%s/%s' % key,
+                     'a component of a primitive of %s is parsed as a full %s expression: an infix operator that follows '
+                     'it is swallowed by the component instead of belonging to the enclosing expression (documented '
+                     'precedence: primitives bind tighter than && / ||)' % (name.split('.')[-1], target.replace('_', '-')),
+                     '%s:%d' % (m.relpath, node.lineno), detail=FULL_COMPONENTS.get(key, ''))
+    c.floor('C06-i', 'components of primitives parsed as simple expressions', n_simple, 12)
+    c.floor('C06-i', 'delimited components parsed as full expressions', n_full, 3)
